@@ -38,7 +38,8 @@ PosOfBound(b, n, doc, lax) ==
     [] b.k = "last" -> [ok |-> TRUE, pos |-> (n - 1) + b.off]
     [] b.k = "bad"  ->
          IF b.which = "multi" /\ doc.t = "arr" /\ Len(doc.a) = 1 /\ doc.a[1].t = "num"
-         THEN [ok |-> TRUE, pos |-> BNToInt(BNTrunc(doc.a[1].n))]     \* $[*] of a one-number array
+         THEN (IF BNFitsInt32(BNTrunc(doc.a[1].n)) THEN [ok |-> TRUE, pos |-> BNToInt(BNTrunc(doc.a[1].n))]
+               ELSE [ok |-> FALSE, pos |-> 0])                        \* $[*] of a one-number array
          ELSE IF b.which = "multi" /\ doc.t = "num" /\ lax
          THEN [ok |-> TRUE, pos |-> BNToInt(BNTrunc(doc.n))]
          ELSE [ok |-> FALSE, pos |-> 0]
@@ -65,14 +66,23 @@ Nested == { <<NRoot, NIdx(<<Sub1(<<NRoot, NIdx(<<Sub1(Lit(0))>>)>>)>>)>>,       
             <<NRoot, NIdx(<<Sub1(<<NLast>>)>>), NIdx(<<Sub1(<<NLast>>)>>)>>,               \* $[last][last]
             <<NRoot, NIdx(<<Sub1(<<NRoot, NIdx(<<Sub1(<<NLast>>)>>), NIdx(<<Sub1(<<NLast>>)>>)>>)>>)>>,  \* $[$[last][last]]
             <<NRoot, NIdx(<<Sub1(<<NRoot, NIdx(<<Sub1(<<NLast>>)>>), NIdx(<<Sub1(<<NLast>>)>>)>>), Sub1(<<NLast>>)>>)>> } \* $[$[last][last], last]
-NestedSeq == SetToSeq(Nested)
+(* bounds taken from the document itself (float64 and json.Number spellings  *)
+(* of negative, fractional and out-of-int32 numbers reach the subscript only *)
+(* this way)                                                                 *)
+FromDoc == { <<NRoot, NIdx(<<Sub1(<<NRoot, NIdx(<<Sub1(Lit(0))>>)>>)>>)>>,                      \* $[$[0]]
+             <<NRoot, NIdx(<<Sub2(<<NRoot, NIdx(<<Sub1(Lit(0))>>)>>, <<NRoot, NIdx(<<Sub1(Lit(1))>>)>>)>>)>>,   \* $[$[0] to $[1]]
+             <<NRoot, NIdx(<<Sub1(<<NRoot, NIdx(<<Sub1(<<NLast>>)>>)>>), Sub1(Lit(0))>>)>> }    \* $[$[last], 0]
+NestedSeq == SetToSeq(Nested \cup FromDoc)
 
 PathOfAbs(sl) == <<NRoot, NIdx([j \in 1..Len(sl) |-> SubOf(sl[j])])>>
 PathSeq == [i \in 1..Len(AbsSeq) |-> PathOfAbs(AbsSeq[i])] \o NestedSeq
 
 Elems == {VNull, VFlt(1), VStr(KX), VArr(<<VFlt(2)>>), VObj(<<[k |-> KA, v |-> VFlt(1)]>>)}
 NonArrays == {VFlt(1), VNull, VObj(<<[k |-> KA, v |-> VFlt(1)]>>)}
-DocSeq == SetToSeq(ArraysUpTo(Elems, MaxLen) \cup NonArrays
+Nums == {VHalf(h) : h \in {-3, -1, 1, 3, 5}} \cup {VFlt(i) : i \in {-1, 0, 1, 2, 3}}
+        \cup {VNum("f", BNMul2k(BNOne, 31)), VNum("f", BNNeg(BNAdd(BNMul2k(BNOne, 31), BNOne)))}
+NumDocs == {VArr(<<a, b, VStr(KX)>>) : a \in Nums, b \in Nums} \cup {VArr(<<a>>) : a \in Nums}
+DocSeq == SetToSeq(ArraysUpTo(Elems, MaxLen) \cup NonArrays \cup NumDocs
                    \cup {VArr(<<VFlt(0), VFlt(1), VArr(<<VFlt(0), VFlt(1)>>)>>), VArr(<<VFlt(5), VFlt(6), VArr(<<VFlt(0), VFlt(1)>>)>>)})
 
 ASSUME ndJsonSerialize("paths.ndjson", [i \in 1..Len(PathSeq) |-> [pred |-> FALSE, chain |-> PathSeq[i]]])
@@ -100,8 +110,21 @@ CaseAt(p, d, lx) ==
   [path |-> [lax |-> lx, pred |-> FALSE, chain |-> PathSeq[p]], doc |-> DocSeq[d], vars |-> <<>>,
    silent |-> FALSE, useTZ |-> FALSE, zone |-> "UTC"]
 
+(* $[$[0]] on an array of numbers: the element at trunc(a[0]), by the rules *)
+NumPos(v) == IF v.t = "num" /\ BNFitsInt32(BNTrunc(v.n)) THEN [ok |-> TRUE, pos |-> BNToInt(BNTrunc(v.n))] ELSE [ok |-> FALSE, pos |-> 0]
+FromDocLaw(d, lx) ==
+  LET doc == DocSeq[d]
+      c   == [path |-> [lax |-> lx, pred |-> FALSE, chain |-> <<NRoot, NIdx(<<Sub1(<<NRoot, NIdx(<<Sub1(Lit(0))>>)>>)>>)>>],
+              doc |-> doc, vars |-> <<>>, silent |-> FALSE, useTZ |-> FALSE, zone |-> "UTC"]
+      r   == Eval(c, Par0)
+  IN IF doc.t # "arr" \/ Len(doc.a) = 0 \/ doc.a[1].t # "num" THEN TRUE
+     ELSE LET p == NumPos(doc.a[1])
+          IN IF ~p.ok THEN r.err = "verbose"
+             ELSE IF p.pos < 0 \/ p.pos >= Len(doc.a) THEN (IF lx THEN r.err = "none" /\ r.items = <<>> ELSE r.err = "verbose")
+             ELSE r.err = "none" /\ r.items = <<doc.a[p.pos + 1]>>
+
 Law_C14(p, d, lx) ==
-  IF p > Len(AbsSeq) THEN TRUE        \* nested forms: checked by the fixed expectations below
+  IF p > Len(AbsSeq) THEN FromDocLaw(d, lx)   \* nested forms: fixed expectations below and the from-document law
   ELSE LET c   == CaseAt(p, d, lx)
            r   == Eval(c, Par0)
            doc == DocSeq[d]
